@@ -931,7 +931,7 @@ def run(ctx: Ctx) -> None:
     ctx.log(f"hostile-target handling of the code under test: {ctx.extra['code_design']}")
     model_phase(ctx)
     sim_phase(ctx, loop)
-    n = ctx.pick(900, 8000)
+    n = ctx.pick(800, 8000)
     batch: List[dict] = []
     for _ in range(n):
         batch.append(random_exec(ctx, loop, ctx.rng))
